@@ -65,4 +65,62 @@ theorem rank_zero (pc : Pc) (h : rank pc = 0) : ∃ o, pc = .finished o := by
   cases pc <;> simp [rank] at h
   exact ⟨_, rfl⟩
 
+theorem wstep_finished (o : Outcome) (f : Option Fault) : wstep (.finished o) f = .finished o := by
+  simp [wstep]
+
+theorem wrun_finished (o : Outcome) (fs : List (Option Fault)) : wrun (.finished o) fs = .finished o := by
+  induction fs with
+  | nil => rfl
+  | cons f t ih => simpa [wrun, wstep] using ih
+
+theorem astep_length (a : Agent) (i : Nat) (f : Option Fault) : (astep a i f).length = a.length := by
+  unfold astep; split <;> simp
+
+theorem arun_length (a : Agent) (sched : List (Nat × Option Fault)) : (arun a sched).length = a.length := by
+  induction sched generalizing a with
+  | nil => rfl
+  | cons p t ih => obtain ⟨i, f⟩ := p; simp only [arun]; rw [ih, astep_length]
+
+theorem fetch_ok (f : Option Fault) (h : f ≠ some .fetchFail) : wstep .fetching f = .connecting := by
+  cases f with
+  | none => rfl
+  | some x => cases x <;> simp_all [wstep]
+
+theorem connecting_cases (f : Option Fault) : wstep .connecting f = .uploading 502 ∨ wstep .connecting f = .readingHead := by
+  cases f with
+  | none => simp [wstep]
+  | some x => cases x <;> simp [wstep]
+
+theorem head_cases (f : Option Fault) : wstep .readingHead f = .uploading 502 ∨ wstep .readingHead f = .streaming := by
+  cases f with
+  | none => simp [wstep]
+  | some x => cases x <;> simp [wstep]
+
+theorem streaming_step (f : Option Fault) : wstep .streaming f = .uploading 200 := by
+  cases f with
+  | none => simp [wstep]
+  | some x => cases x <;> simp [wstep]
+
+theorem upload_ok (st : Nat) (f : Option Fault) (h : f ≠ some .uploadFail) : wstep (.uploading st) f = .finished (.served st) := by
+  cases f with
+  | none => rfl
+  | some x => cases x <;> simp_all [wstep]
+
+theorem served_unless_proxy_fails (fs : List (Option Fault)) (h : 5 ≤ fs.length)
+    (h1 : some Fault.fetchFail ∉ fs) (h2 : some Fault.uploadFail ∉ fs) :
+    ∃ st, (st = 200 ∨ st = 502) ∧ wrun .fetching fs = .finished (.served st) := by
+  match fs, h with
+  | f1 :: f2 :: f3 :: f4 :: f5 :: rest, _ =>
+    simp only [List.mem_cons, not_or] at h1 h2
+    simp only [wrun]
+    rw [fetch_ok f1 (fun e => h1.1 e.symm)]
+    rcases connecting_cases f2 with hc | hc <;> rw [hc]
+    · rw [upload_ok 502 f3 (fun e => h2.2.2.1 e.symm)]; simp only [wstep_finished, wrun_finished]
+      exact ⟨502, Or.inr rfl, rfl⟩
+    · rcases head_cases f3 with hh | hh <;> rw [hh]
+      · rw [upload_ok 502 f4 (fun e => h2.2.2.2.1 e.symm)]; simp only [wstep_finished, wrun_finished]
+        exact ⟨502, Or.inr rfl, rfl⟩
+      · rw [streaming_step f4, upload_ok 200 f5 (fun e => h2.2.2.2.2.1 e.symm), wrun_finished]
+        exact ⟨200, Or.inl rfl, rfl⟩
+
 end InvProxy.Workers
